@@ -24,6 +24,11 @@ pub mod fmodel {
         unsafe { File::from_raw_fd(3) }
     }
 
+    /// OpenOptions::open: every path names the one modelled file (creation flags are not modelled)
+    pub fn open<P: AsRef<std::path::Path>>(_o: &std::fs::OpenOptions, _path: P) -> io::Result<File> {
+        Ok(fake_file())
+    }
+
     pub fn file_len(_f: &File) -> u64 {
         DISK_SIZE as u64
     }
@@ -136,6 +141,7 @@ macro_rules! fs_harness {
         #[kani::stub(<std::fs::File as std::os::unix::fs::FileExt>::read_at, fmodel::read_at)]
         #[kani::stub(<std::fs::File as std::os::unix::fs::FileExt>::write_at, fmodel::write_at)]
         #[kani::stub(std::fs::File::sync_data, fmodel::sync_data)]
+        #[kani::stub(std::fs::OpenOptions::open, fmodel::open)]
         #[kani::stub(crc32fast::Hasher::new, fmodel::baseline_hasher)]
         fn $name() $body
     };
@@ -148,6 +154,7 @@ macro_rules! fs_harness {
         #[kani::stub(<std::fs::File as std::os::unix::fs::FileExt>::read_at, fmodel::read_at)]
         #[kani::stub(<std::fs::File as std::os::unix::fs::FileExt>::write_at, fmodel::write_at)]
         #[kani::stub(std::fs::File::sync_data, fmodel::sync_data)]
+        #[kani::stub(std::fs::OpenOptions::open, fmodel::open)]
         #[kani::stub(crate::calculate_crc32c, fmodel::cheap_crc)]
         fn $name() $body
     };
